@@ -37,7 +37,7 @@ def csv_expected(chain, coin, start=0, end=None, sizes=None):
     for h, b in sl:
         size = (sizes or {}).get(h)
         if size is None:
-            size = len(b.ser())
+            size = len(b.ser()) + len(getattr(b, "slack", b""))
         blocks.append("%s;%d;%d;%d;%s;%s;%d;%d;%d\n" % (b.hash_hex, h, b.version, size, rhex(b.prev), rhex(b.merkle_bytes), b.time, b.bits, b.nonce))
         bh = b.hash_hex
         for t in b.txs:
@@ -131,7 +131,7 @@ def stats_expected(chain, coin, start=0, end=None, sizes=None):
     last_ts = 0
     for h, b in sl:
         size = (sizes or {}).get(h)
-        sizes_l.append(len(b.ser()) if size is None else size)
+        sizes_l.append(len(b.ser()) + len(getattr(b, "slack", b"")) if size is None else size)
         st["txs"] += len(b.txs)
         for t in b.txs:
             if t.is_coinbase():
